@@ -14,6 +14,7 @@ import (
 	"encoding/json"
 	"flag"
 	"fmt"
+	"io"
 	"math"
 	"math/big"
 	"os"
@@ -46,36 +47,52 @@ type FloatEnt struct {
 }
 
 type Obs struct {
-	Crash  string      `json:"crash,omitempty"`
-	Toks   []Tok       `json:"toks,omitempty"`
-	Errs   []string    `json:"errs,omitempty"`
-	Ok     bool        `json:"ok"`
-	Out    []int       `json:"out,omitempty"`   // output text as runes
-	OutHex string      `json:"outhex,omitempty"` // output bytes when not valid UTF-8
-	Res    string      `json:"res,omitempty"`   // unmarshal: ok | err | json | more
-	First  string      `json:"first,omitempty"`
-	Items  [][2][]int  `json:"items,omitempty"` // series: (type name bytes, json runes)
-	Strs   [][]int     `json:"strs,omitempty"`  // shell tokens (bytes)
-	Floats []FloatEnt  `json:"floats,omitempty"`
-	Valid  *bool       `json:"valid,omitempty"` // json.Valid(output)
-	Got    string      `json:"got,omitempty"`   // canonical form of the decoded output
-	Tree   interface{} `json:"tree,omitempty"`  // jsonparse: decoded tree
-	NonPr  []int       `json:"nonprint,omitempty"`
-	Text   string      `json:"text,omitempty"` // printable copy of the output for reports
-	Note   string      `json:"note,omitempty"`
+	Crash   string      `json:"crash,omitempty"`
+	Toks    []Tok       `json:"toks,omitempty"`
+	Errs    []string    `json:"errs,omitempty"`
+	Ok      bool        `json:"ok"`
+	Out     []int       `json:"out,omitempty"`    // output text as runes
+	OutHex  string      `json:"outhex,omitempty"` // output bytes when not valid UTF-8
+	Res     string      `json:"res,omitempty"`    // unmarshal: ok | err | json | more
+	First   string      `json:"first,omitempty"`
+	Items   [][2][]int  `json:"items,omitempty"`   // series: (type name bytes, json runes)
+	Rejects [][2][]int  `json:"rejects,omitempty"` // tseries: entries whose JSON the strict decoding rejects
+	Vals    [][]int     `json:"vals,omitempty"`    // stream: the JSON of the values decoded one after the other
+	Fin     int         `json:"fin,omitempty"`     // stream: 0 More() false, 1 Decode errors, 2 json.Unmarshal error
+	Deep    bool        `json:"deep,omitempty"`    // gort: jsonx round trip DeepEqual encoding/json's round trip
+	Ident   bool        `json:"ident,omitempty"`   // gort: the value came back DeepEqual to the original
+	JsonEq  bool        `json:"jsoneq,omitempty"`  // gort: Got / Want2 are the canonical JSON of the two results
+	Want2   string      `json:"want2,omitempty"`
+	Canon   *bool       `json:"canon,omitempty"` // gort: every float literal json.Marshal wrote is canonical
+	N       int         `json:"n,omitempty"`     // runes: code points checked
+	Pos     [][2]int    `json:"pos,omitempty"`   // rawpos: (line, column) of every token, EOF last
+	EPos    [][2]int    `json:"epos,omitempty"`  // rawpos: positions of the lexer's errors
+	Strs    [][]int     `json:"strs,omitempty"`  // shell tokens (bytes)
+	Floats  []FloatEnt  `json:"floats,omitempty"`
+	Valid   *bool       `json:"valid,omitempty"` // json.Valid(output)
+	Got     string      `json:"got,omitempty"`   // canonical form of the decoded output
+	Tree    interface{} `json:"tree,omitempty"`  // jsonparse: decoded tree
+	NonPr   []int       `json:"nonprint,omitempty"`
+	Text    string      `json:"text,omitempty"` // printable copy of the output for reports
+	Note    string      `json:"note,omitempty"`
 }
 
 type Case struct {
-	I      int         `json:"i"`
-	Stream string      `json:"stream"`
-	Op     string      `json:"op"`
-	In     string      `json:"in"`             // input bytes, hex
-	Src    string      `json:"src,omitempty"`  // printable copy of the input
-	Want   string      `json:"want,omitempty"` // canonical intended value
-	Known  []string    `json:"known,omitempty"`
-	Reject bool        `json:"reject,omitempty"` // the input must be rejected
-	PV     interface{} `json:"pv,omitempty"`     // print: the value tree
-	Obs    *Obs        `json:"obs,omitempty"`
+	I         int         `json:"i"`
+	Stream    string      `json:"stream"`
+	Op        string      `json:"op"`
+	In        string      `json:"in"`             // input bytes, hex
+	Src       string      `json:"src,omitempty"`  // printable copy of the input
+	Want      string      `json:"want,omitempty"` // canonical intended value
+	Known     []string    `json:"known,omitempty"`
+	Reject    bool        `json:"reject,omitempty"`    // the input must be rejected
+	Plain     bool        `json:"plain,omitempty"`     // the input is a valid RFC 8259 text
+	Reasons   []string    `json:"reasons,omitempty"`   // documented reasons for JSONx to reject it
+	PV        interface{} `json:"pv,omitempty"`        // print: the value tree
+	WantItems []WantItem  `json:"wantitems,omitempty"` // tseries: the intended entries
+	Multi     bool        `json:"multi,omitempty"`     // stream: Want lists the intended values
+	Loose     bool        `json:"loose,omitempty"`     // gort: the type keeps JSON text as text; JSON equality expected
+	Obs       *Obs        `json:"obs,omitempty"`
 
 	goVal interface{} // print: the Go value (not serialised)
 }
@@ -432,6 +449,8 @@ func runCase(c *Case) {
 	case "raw":
 		ts, es := jsonx.VerifRawTokens(in)
 		o.Toks, o.Errs, o.Ok = toks(ts), errNames(es), true
+	case "rawpos":
+		runRawPos(o, in)
 	case "filtered":
 		ts, es := jsonx.VerifTokens(in)
 		o.Toks, o.Errs, o.Ok = toks(ts), errNames(es), true
@@ -491,6 +510,14 @@ func runCase(c *Case) {
 		} else if typed != nil {
 			o.Note = "result together with errors"
 		}
+	case "gort":
+		runGoRT(c, o)
+	case "runes":
+		runRunes(o, in)
+	case "tseries":
+		runTyped(c, o, in)
+	case "stream":
+		runStream(o, in)
 	case "shell":
 		ss, es := strtoken.Parse(string(in))
 		o.Errs = errNames(es)
@@ -557,6 +584,9 @@ func runCase(c *Case) {
 			if s, err4 := jsonx.Sprint(c.goVal); (err4 == nil) != (err1 == nil) || (err1 == nil && s != string(want)) {
 				notes = append(notes, "Sprint differs from Marshal")
 			}
+			if pb, err5 := capturePrint(c.goVal); (err5 == nil) != (err1 == nil) || (err1 == nil && !bytes.Equal(pb, want)) {
+				notes = append(notes, "Print (standard output) differs from Marshal")
+			}
 		} else {
 			os.WriteFile(fn, in, 0644)
 		}
@@ -609,6 +639,27 @@ func runCase(c *Case) {
 			o.Got = got
 		}
 	}
+}
+
+// capturePrint runs jsonx.Print with os.Stdout replaced by a pipe.
+func capturePrint(v interface{}) ([]byte, error) {
+	r, w, err := os.Pipe()
+	if err != nil {
+		return nil, err
+	}
+	old := os.Stdout
+	os.Stdout = w
+	done := make(chan []byte)
+	go func() {
+		b, _ := io.ReadAll(r)
+		done <- b
+	}()
+	perr := jsonx.Print(v)
+	os.Stdout = old
+	w.Close()
+	b := <-done
+	r.Close()
+	return b, perr
 }
 
 func nonPrint(s string) []int {
@@ -686,6 +737,9 @@ func main() {
 	if *oneOp != "" {
 		in, _ := hex.DecodeString(*oneIn)
 		cs = []Case{{I: 0, Stream: *oneStream, Op: *oneOp, In: *oneIn, Src: printable(in), Known: seriesKnown}}
+		if *oneOp == "tseries" {
+			cs[0].Known = typedKnown
+		}
 	}
 	out := hx.NewOut(os.Stdout)
 	if *child {
